@@ -7,7 +7,7 @@
    released; a gap that is never filled leaves them unanswered (known finding F16a, reported by the
    check for the histories that exhibit it). *)
 From Coq Require Import List Arith NArith Bool Sorted.
-From EZK Require Import Gen.Tables Lib.Bytes Model.C10 Model.C08 Proofs.C08 Proofs.C08b.
+From EZK Require Import Model.Forms9 Proofs.Forms9 Gen.Tables Lib.Bytes Model.C10 Model.C08 Proofs.C08 Proofs.C08b.
 Import ListNotations.
 Close Scope N_scope.
 Open Scope nat_scope.
@@ -125,3 +125,13 @@ Proof.
   - vm_compute. reflexivity.
   - exists 0, (mkde (mkd (Some 15%N) [(16%N, 6%N)]) [[Invite]; [Info]]), 16%N. split; vm_compute; auto.
 Qed.
+
+(* a PRACK the invite usage has taken (its server transaction exists) gets its one final response whether or not the acceptor still waits *)
+Theorem C08_prack_guard : prack_answered_unconditionally = true.
+Proof. reflexivity. Qed.
+
+Theorem C08_taken_prack_answered_once : prack_answered_unconditionally = true -> forall acceptor_waiting, prack_finals acceptor_waiting = 1%nat.
+Proof. exact prack_here. Qed.
+
+Theorem C08_late_prack_unanswered_refuted : prack_finals_form false false = 0%nat.
+Proof. exact prack_unanswered_otherwise. Qed.
